@@ -12,7 +12,7 @@ def sq(ops, lens, sv=0):
     name = '_'.join(x[3:].lower() for x in ops) + '__' + ('x'.join(map(str, lens)) or 'empty') + ('_w0' if sv else '')
     return (name, '%d, %d, %d, %d, %d, %d, %d, %d, %d' % (o[0], o[1], o[2], o[3], len(lens), ls[0], ls[1], ls[2], sv))
 ENT = [sq(['OP_1ADD'], [2]), sq(['OP_ADD'], [1, 2]), sq(['OP_IF', 'OP_ENDIF'], [1], sv=1), sq(['OP_NOTIF', 'OP_ENDIF'], [2], sv=1),
-       sq(['OP_CHECKLOCKTIMEVERIFY'], [2]), sq(['OP_CHECKSEQUENCEVERIFY'], [4]), sq(['OP_CHECKSIG'], [1, 1]), sq(['OP_CHECKSIG', 'OP_NOT'], [2, 1]), sq(['OP_NOP4'], [1]),
+       sq(['OP_CHECKLOCKTIMEVERIFY'], [2]), sq(['OP_CHECKSEQUENCEVERIFY'], [4]), sq(['OP_CHECKSIG'], [1, 1]), sq(['OP_NOP4'], [1]),
        sq(['OP_PICK'], [2, 1]), sq(['OP_NOP1', 'OP_CHECKLOCKTIMEVERIFY', 'OP_DROP'], [1])]
 HARNESSES = [
     H('evalmono', 'evalmono.cpp', 'h_evalmono', link=['script/interpreter.cpp', 'script/script.cpp', 'script/script_error.cpp', 'primitives/transaction.cpp', 'uint256.cpp', 'hash.cpp', 'crypto/ripemd160.cpp', 'crypto/sha1.cpp', 'crypto/sha256.cpp'],
